@@ -729,9 +729,40 @@ pub fn c05(rng: &mut Rng, thorough: bool) -> Scenario {
             pairs.push((lo, hi, rng.chance(2, 3)));
         }
     }
+    // a long run of prefix-sharing keys (several b-tree leaf pages of them) followed by one survivor:
+    // an overlay deletes the whole run, so the seeker that looks for the survivor's leaf has to skip
+    // hundreds of deleted on-disk entries across leaf-page boundaries
+    let mut run: Vec<Key> = Vec::new();
+    let mut run_survivor: Option<Key> = None;
+    if rng.chance(1, 3) {
+        let base = rng.key();
+        let l = rng.range(8, 20) as usize;
+        let nrun = rng.range(200, 700) as usize;
+        let mut ks: Vec<Key> = (0..nrun + 1).map(|_| { let d = l + 1 + rng.below(4) as usize; diverge_at(rng, &base, d) }).collect();
+        for k in ks.iter_mut() {
+            // keep the first l bits of base
+            for bit in 0..l {
+                let want = crate::util::get_bit(&base, bit);
+                if crate::util::get_bit(k, bit) != want {
+                    crate::util::flip_bit(k, bit);
+                }
+            }
+        }
+        ks.sort();
+        ks.dedup();
+        run_survivor = ks.pop();
+        run = ks;
+    }
     for ci in 0..commits {
         let spec = BatchSpec { size: rng.range(1, if thorough { 600 } else { 150 }) as usize, mix: ValueMix::Small, p_delete: 20, p_read: 0, p_rw: 0, p_existing: 40 };
         let mut batch = gen_batch(rng, &mut kg, &live, &spec);
+        if ci == 0 && !run.is_empty() {
+            for k in run.iter().chain(run_survivor.iter()) {
+                batch.push((*k, Acc::Write(Some(gen_value(rng, ValueMix::Small)))));
+            }
+            batch.sort_by(|a, b| a.0.cmp(&b.0));
+            batch.dedup_by(|a, b| a.0 == b.0);
+        }
         if ci == 0 && !pairs.is_empty() {
             for (lo, hi, big_is_lo) in &pairs {
                 let big = (*rng.pick(&[1333usize, 2000, 4093, 40000, 70000]), rng.next() % 1_000_000);
@@ -764,11 +795,24 @@ pub fn c05(rng: &mut Rng, thorough: bool) -> Scenario {
     }
     let mut chain = vec![];
     let mut pair_probes: Vec<Key> = Vec::new();
-    if rng.chance(1, 2) || !pairs.is_empty() {
+    if rng.chance(1, 2) || !pairs.is_empty() || !run.is_empty() {
         // layer one or two uncommitted overlays
         for li in 0..rng.range(1, 2) {
             let spec = BatchSpec { size: rng.range(1, 40) as usize, mix: ValueMix::Small, p_delete: 30, p_read: 0, p_rw: 0, p_existing: 50 };
             let mut batch = gen_batch(rng, &mut kg, &live, &spec);
+            if li == 0 && !run.is_empty() {
+                let sv = run_survivor.unwrap();
+                batch.retain(|e| e.0 != sv && !run.contains(&e.0));
+                for k in run.iter().filter(|k| live.map.contains_key(*k)) {
+                    batch.push((*k, Acc::Write(None)));
+                }
+                pair_probes.push(sv);
+                pair_probes.push(run[0]);
+                pair_probes.push(run[run.len() / 2]);
+                pair_probes.push(run[run.len() - 1]);
+                let d1 = 30 + rng.below(100) as usize;
+                pair_probes.push(diverge_at(rng, &sv, d1));
+            }
             if li == 0 {
                 // the overlay deletes the multi-page member of every pair that is still whole
                 for (lo, hi, big_is_lo) in &pairs {
@@ -1570,6 +1614,102 @@ pub fn c13_crowded(rng: &mut Rng, _thorough: bool) -> Scenario {
     Scenario { ops, label: format!("c13crowded n={} seed={} collisions={}", n, seed, best.0) }
 }
 
+/// The reported hash-table occupancy must be the number of stored pages whatever path created and
+/// cleared them: an overlay creates stored pages, a second overlay built on the still UNCOMMITTED first
+/// one clears some or all of them again, both are committed in order; then close and reopen - the
+/// driver compares the occupancy reported before the close with the recount of the new handle.
+pub fn c19_overlay_occupancy(rng: &mut Rng, _thorough: bool) -> Scenario {
+    let mut ops = Vec::new();
+    let mut ids = Ids::new();
+    let mut live = Live::default();
+    let mut kg = KeyGen::new(rng);
+    let mut cfg = gen_cfg(rng);
+    cfg.rollback = rng.chance(1, 3);
+    cfg.ht = *rng.pick(&[1024u32, 4096, 64000]);
+    ops.push(Op::Open(cfg.clone()));
+    if rng.chance(1, 2) {
+        let sz = rng.range(1, 60) as usize;
+        let b = gen_batch(rng, &mut kg, &live, &BatchSpec { size: sz, mix: ValueMix::Small, p_delete: 0, p_read: 0, p_rw: 0, p_existing: 0 });
+        live.apply(&b);
+        ops.extend(commit_ops(ids.s(), ids.c(), b, false));
+    }
+    let n = rng.range(20, 400) as usize;
+    let mut keys: Vec<Key> = (0..n).map(|_| rng.key()).collect();
+    if rng.chance(1, 2) {
+        keys.extend(kg.dense(rng, 12, 26));
+    }
+    keys.sort();
+    keys.dedup();
+    let a: Vec<(Key, Acc)> = keys.iter().filter(|k| !live.map.contains_key(*k)).map(|k| (*k, Acc::Write(Some(gen_value(rng, ValueMix::Small))))).collect();
+    live.apply(&a);
+    let (s1, c1) = (ids.s(), ids.c());
+    ops.push(Op::Begin { s: s1, chain: vec![], witness: false });
+    ops.push(Op::Finish { s: s1, c: c1, batch: a.clone() });
+    ops.push(Op::Overlay { c: c1 });
+    let all = rng.chance(1, 2);
+    let b: Vec<(Key, Acc)> = a.iter().filter(|_| all || rng.chance(2, 3)).map(|(k, _)| (*k, Acc::Write(None))).collect();
+    live.apply(&b);
+    let (s2, c2) = (ids.s(), ids.c());
+    ops.push(Op::Begin { s: s2, chain: vec![c1], witness: false });
+    ops.push(Op::Finish { s: s2, c: c2, batch: b });
+    ops.push(Op::Overlay { c: c2 });
+    ops.push(Op::Commit { c: c1, nb: false });
+    ops.push(Op::Commit { c: c2, nb: false });
+    ops.push(Op::CheckAll { proofs: 3 });
+    ops.push(Op::Close);
+    ops.push(Op::Open(cfg.clone()));
+    ops.push(Op::CheckAll { proofs: 3 });
+    Scenario { ops, label: format!("c19overlay n={} all={}", n, all as u8) }
+}
+
+/// Keys that are EXACTLY the smallest / greatest key of a commit worker's region (the regions the real
+/// shard_regions reports for the chosen worker count), written, overwritten and deleted in batches
+/// that also change unrelated keys on both sides: every key must reach the trie whichever worker's
+/// range it closes.
+pub fn c02_region_boundaries(rng: &mut Rng, _thorough: bool) -> Scenario {
+    let mut ops = Vec::new();
+    let mut ids = Ids::new();
+    let mut live = Live::default();
+    let mut kg = KeyGen::new(rng);
+    let mut cfg = gen_cfg(rng);
+    cfg.cc = *rng.pick(&[2usize, 2, 3, 4, 8, 64]);
+    cfg.rollback = false;
+    ops.push(Op::Open(cfg.clone()));
+    let regions = nomt::verif_api::shard_regions(cfg.cc);
+    let mut edges: Vec<Key> = Vec::new();
+    for (lo, hi, _) in &regions {
+        edges.push(*lo);
+        edges.push(*hi);
+    }
+    edges.sort();
+    edges.dedup();
+    let sz0 = rng.range(3, 60) as usize;
+    let b0 = gen_batch(rng, &mut kg, &live, &BatchSpec { size: sz0, mix: ValueMix::Small, p_delete: 0, p_read: 0, p_rw: 0, p_existing: 0 });
+    live.apply(&b0);
+    ops.extend(commit_ops(ids.s(), ids.c(), b0, false));
+    ops.push(Op::CheckAll { proofs: 2 });
+    for round in 0..3 {
+        let sz = rng.range(0, 12) as usize;
+        let mut b = gen_batch(rng, &mut kg, &live, &BatchSpec { size: sz, mix: ValueMix::Small, p_delete: 20, p_read: 0, p_rw: 30, p_existing: 40 });
+        for e in &edges {
+            if rng.chance(2, 3) {
+                let w = if round == 2 && rng.chance(1, 2) { Acc::Write(None) } else { Acc::Write(Some(gen_value(rng, ValueMix::Small))) };
+                b.retain(|x| x.0 != *e);
+                b.push((*e, w));
+            }
+        }
+        b.sort_by(|a, b| a.0.cmp(&b.0));
+        b.dedup_by(|a, b| a.0 == b.0);
+        if b.is_empty() {
+            continue;
+        }
+        live.apply(&b);
+        ops.extend(commit_ops(ids.s(), ids.c(), b, rng.chance(1, 3)));
+        ops.push(Op::CheckAll { proofs: 4 });
+    }
+    Scenario { ops, label: format!("c02edges cc={} edges={}", cfg.cc, edges.len()) }
+}
+
 pub fn c13_cfgs(rng: &mut Rng, n: usize) -> Vec<Cfg> {
     let mut v = Vec::new();
     for i in 0..n {
@@ -1593,13 +1733,14 @@ pub fn generate(prop: &str, rng: &mut Rng, thorough: bool) -> Vec<Scenario> {
             4 => c01_worker_edges(rng, thorough),
             _ => c01(rng, thorough),
         }],
-        "C02" => vec![c02(rng, thorough)],
+        "C02" => vec![if rng.chance(1, 5) { c02_region_boundaries(rng, thorough) } else { c02(rng, thorough) }],
         "C05" => vec![c05(rng, thorough)],
         "C06" => vec![c06(rng, thorough)],
         "C09" => vec![if rng.chance(1, 10) { c09_cold_prior(rng, thorough) } else { c09(rng, thorough) }],
         "C10" => vec![if rng.chance(1, 6) { c13_crowded(rng, thorough) } else { c10(rng, thorough) }],
         "C11" => vec![c11(rng, thorough)],
         "C12" => vec![if rng.chance(1, 3) { c12_aba(rng, thorough) } else { c12(rng, thorough) }],
+        "C19" => vec![c19_overlay_occupancy(rng, thorough)],
         "C13" => {
             let h = c13_history(rng, thorough);
             let mut v: Vec<Scenario> = c13_cfgs(rng, if thorough { 8 } else { 4 })
@@ -1622,6 +1763,10 @@ pub fn generate(prop: &str, rng: &mut Rng, thorough: bool) -> Vec<Scenario> {
                     ops.extend(hist.iter().cloned());
                     v.push(Scenario { ops, label: format!("c13edges {}", c.to_line()) });
                 }
+            }
+            // every fourth history: keys that are exactly the edges of the workers' regions
+            if rng.chance(1, 4) {
+                v.push(c02_region_boundaries(rng, thorough));
             }
             // every third history: a crowded little hash table with an adversarial seed, reopened
             if rng.chance(1, 3) {
